@@ -255,6 +255,39 @@ theorem C13_restart {Id D K} (o : Oracles Id D K) (start n r₀ r k m : Nat) (h 
   · rw [run_append]; simp only [run, step]; rw [run_samples]
   · rw [run_samples, horig]
 
+/-- is this call a `sample()` that raised while loading its datasets? -/
+def Op.isFailed : Op → Bool
+  | .failedSample => true
+  | _ => false
+
+@[simp] theorem isFailed_sample : Op.isFailed .sample = false := rfl
+@[simp] theorem isFailed_setRound (r : Nat) : Op.isFailed (.setRound r) = false := rfl
+@[simp] theorem isFailed_failedSample : Op.isFailed .failedSample = true := rfl
+
+/-- **Failed samples leave no trace.** A `sample()` call that raises while the datasets are loaded
+returns nothing and does not consume its round: any history with such failed calls anywhere in it ends
+at the same round and hands out exactly the same cohorts, in the same order, as the history with the
+failed calls removed.  In particular the retry right after a failure returns the cohort of the round
+the failed call was asked for. -/
+theorem C13_failed_sample_frame {Id D K} (o : Oracles Id D K) (start n : Nat) (ops : List Op) (r : Nat) :
+    (run o start n r ops).1 = (run o start n r (ops.filter fun op => !op.isFailed)).1 ∧
+    (run o start n r ops).2.filterMap id =
+      (run o start n r (ops.filter fun op => !op.isFailed)).2.filterMap id ∧
+    (∀ h, (run o start n r (h ++ [.failedSample, .sample])).2.getLast? =
+      some (some (cohort o start n (run o start n r h).1))) := by
+  refine ⟨?_, ?_, ?_⟩
+  · induction ops generalizing r with
+    | nil => rfl
+    | cons op ops ih =>
+      cases op <;> simp [run, step, ih]
+  · induction ops generalizing r with
+    | nil => rfl
+    | cons op ops ih =>
+      cases op <;> simp [run, step] <;> exact ih _
+  · intro h
+    rw [run_append]
+    simp [run, step]
+
 /-! ## cohort content under the oracle hypotheses (numpy `choice` without replacement) -/
 
 theorem cohort_ids {Id D K} (o : Oracles Id D K) (start n r : Nat)
@@ -385,6 +418,11 @@ example : run (Id := Nat) (D := Nat) (K := Nat)
          some [(207482415, 207482415, 1), (207482415, 207482415, 1)], none,
          some [(1644515420, 1644515420, 7), (1644515420, 1644515420, 7)], none,
          some [(12345, 12345, 0), (12345, 12345, 0)]]) := by decide +kernel
+/-- a failed `sample()` between two successful ones: the retry returns the round that failed -/
+example : (run (Id := Nat) (D := Nat) (K := Nat)
+      ⟨fun s n => List.replicate n s, fun r n => List.replicate n r, id⟩ 12345 1 0
+      [.sample, .failedSample, .failedSample, .sample]).2.filterMap id =
+    [[(12345, 12345, 0)], [(207482415, 207482415, 1)]] := by decide +kernel
 example : 1 ≤ (12345 : Nat) ∧ 12345 < P := by decide
 example : lehmer 12345 1 = 207482415 ∧ lehmer 12345 (P - 1) = 12345 ∧ lehmer 12345 (P - 2) ≠ 12345 := by
   decide +kernel
